@@ -7,7 +7,8 @@ method with receiver `siglist[a]` and argument `siglist[b]` (`.error cls` = it r
 
 What is proved, for every list length `n`, every pairwise function, every job count:
 
-* `serial_entries`, `max_entries`, `avg_entries`, `containment_entries`, `parallel_entries`:
+* `serial_entries`, `max_entries`, `avg_entries`, `avg_ani_entries` (+ `avg_ani_entry_eq_pairwise`),
+  `containment_entries`, `parallel_entries`:
   the exact matrix each builder returns (unit diagonal, which pairwise call lands in which cell).
 * `parallel_eq_serial`, `allpairs_eq_serial`, `parallel_jobs_irrelevant`, `imap_chunk_irrelevant`:
   `compare_parallel` = `compare_serial` as VALUES OF TYPE `Except` — same matrix, or the same
@@ -23,7 +24,7 @@ What is proved, for every list length `n`, every pairwise function, every job co
   function is symmetric.  Without that hypothesis both are false of the code (the symmetric builders
   evaluate one argument order only): `perm_equivariant_counterexample`.  The real
   `MinHash.max_containment(other, downsample=True)` was not symmetric for sketches of different
-  `scaled` until /repo commit 0bf3075 (finding D24 of this check, see harness/streams/compare.py:
+  `scaled` until /repo commit 0bf3075 (finding C16.1 of this check, see harness/streams/compare.py:
   the oracle tests the symmetry of every pairwise table), so the hypothesis is not pedantry.
 * `perm_equivariant_containment`: no symmetry needed for the containment matrix.
 -/
@@ -42,7 +43,8 @@ variable {α : Type}
     translator regenerates the constant, this theorem and every `*_entries` theorem stop checking. -/
 theorem source_shapes :
     Gen.cmpSerialRecvIsRow = true ∧ Gen.cmpContainmentRecvIsRow = false ∧ Gen.cmpMaxRecvIsRow = false ∧
-      Gen.cmpAvgRecvIsRow = false ∧ Gen.cmpParColOffset = 1 ∧ Gen.cmpParRowStart = 1 := by decide
+      Gen.cmpAvgRecvIsRow = false ∧ Gen.cmpAvgAniFirstRecvIsRow = false ∧ Gen.cmpParColOffset = 1 ∧
+      Gen.cmpParRowStart = 1 := by decide
 
 /-! ### what each builder returns -/
 
@@ -68,6 +70,43 @@ theorem avg_entries (n : Nat) (cell : Nat → Nat → Except String α) (f : Nat
       .ok (Mat.ofFn n fun a b => if a = b then one else if a < b then f b a else f a b) := by
   rw [compareSerialAvg_eq]
   exact compareSerial_ok n (fun i j => cell j i) (fun i j => f j i) one h
+
+/-- the pairwise reference for average-containment ANI: `sig_a.avg_containment_ani(sig_b)` as `MinHash` computes it
+    (`a1 = self.containment_ani(other).ani`, `a2 = other.containment_ani(self).ani`, None if either is None,
+    else `(a1 + a2) / 2`), with the builders' `None -> 0.0`; `g x y` = `sig_x.containment_ani(sig_y).ani` -/
+def pairwiseAvgAni (g : Nat → Nat → Option α) (avg : α → α → α) (zero : α) (a b : Nat) : α :=
+  avgOrZero avg zero (g a b) (g b a)
+
+/-- `compare_serial_avg_containment(return_ani=True)` for the current source (/repo b596f84: two `containment_ani`
+    calls with the `downsample` flag, averaged, None -> 0.0): the exact matrix.  FULL statement: every
+    `containment_ani` table `g`, every averaging function. -/
+theorem avg_ani_entries (n : Nat) (cani : Nat → Nat → Except String (Option α)) (g : Nat → Nat → Option α)
+    (avg : α → α → α) (zero one : α)
+    (h : ∀ i j, i ≠ j → i < n → j < n → cani i j = .ok (g i j)) :
+    compareSerialAvgAni n cani avg zero one =
+      .ok (Mat.ofFn n fun a b => if a = b then one else
+        if a < b then pairwiseAvgAni g avg zero b a else pairwiseAvgAni g avg zero a b) :=
+  compareSerialAvgAni_ok n cani g avg zero one h
+
+/-- … and every off-diagonal entry IS the pairwise `avg_containment_ani` of the two signatures, whichever of them
+    is the receiver (binary64 `+` is commutative: hypothesis `hc`) -/
+theorem avg_ani_entry_eq_pairwise (n : Nat) (g : Nat → Nat → Option α) (avg : α → α → α)
+    (hc : ∀ x y, avg x y = avg y x) (zero one : α) (a b : Nat) (ha : a < n) (hb : b < n) (hab : a ≠ b) :
+    (upperSpec n (fun i j => avgOrZero avg zero (g j i) (g i j)) one).get? a b = some (pairwiseAvgAni g avg zero a b) ∧
+    pairwiseAvgAni g avg zero a b = pairwiseAvgAni g avg zero b a := by
+  have hs : pairwiseAvgAni g avg zero a b = pairwiseAvgAni g avg zero b a := avgOrZero_comm avg hc zero _ _
+  refine ⟨?_, hs⟩
+  simp only [upperSpec, Mat.get?_ofFn _ ha hb, hab, if_false]
+  by_cases h1 : a < b
+  · simp only [h1, if_true]; exact congrArg some hs.symm
+  · simp only [h1, if_false]; rfl
+
+/-- the first `containment_ani` call that raises decides the outcome: with `downsample=False` on sketches of
+    different scaled the pairwise call raises, and so does the builder (it used to return a matrix: C16.2) -/
+theorem avg_ani_raises_with_pairwise (cani : Nat → Nat → Except String (Option α)) (avg : α → α → α) (zero one : α)
+    (e : String) (h : cani 1 0 = .error e) : compareSerialAvgAni 2 cani avg zero one = .error e := by
+  rw [compareSerialAvgAni_eq, compareSerial_def]
+  simp [pairsUpper, List.range, List.range.loop, stepSym, h, bind, Except.bind]
 
 /-- `compare_serial_containment`: row a, column b holds `sig_b.contained_by(sig_a)` -/
 theorem containment_entries (n : Nat) (cell : Nat → Nat → Except String α) (f : Nat → Nat → α) (one : α)
@@ -200,7 +239,7 @@ theorem ani_none_is_zero (zero : α) :
    The symmetric builders evaluate one argument order only (`sig_i.f(sig_j)` for i < j, or
    `sig_j.f(sig_i)`), so below the diagonal the entry is the value of the other order.
    Proved under the hypothesis that the pairwise function is symmetric; counterexample below.
-   The code violated the hypothesis for `max_containment(downsample=True)` on mixed scaled (D24, repaired by 0bf3075). -/
+   The code violated the hypothesis for `max_containment(downsample=True)` on mixed scaled (C16.1, repaired by 0bf3075). -/
 theorem entry_eq_pairwise_partial (n : Nat) (f : Nat → Nat → α) (one : α)
     (hsym : ∀ i j, i < n → j < n → f i j = f j i) (a b : Nat) (ha : a < n) (hb : b < n) (hab : a ≠ b) :
     (upperSpec n f one).get? a b = some (f a b) ∧ (upperSpec n f one).get? a b = some (f b a) := by
@@ -275,6 +314,19 @@ example : compareSerialContainment 3 (fun i j => .ok (10 * i + j)) 1 = .ok [[1, 
   decide
 
 example : compareParallel 3 16 (fun i j => if i = 1 ∧ j = 2 then .error "ValueError" else .ok (10 * i + j)) 1 0 =
+    .error "ValueError" := by decide
+
+/-! regression examples for finding C16.2 (repaired by /repo b596f84): `compare_serial_avg_containment(return_ani=True)`
+    used to build `FracMinHashComparison(mh_j, mh_i)` and ignore `downsample`.  Now the entry is the average of the
+    two `containment_ani` results, 0.0 as soon as one is withheld, and the builder raises when the pairwise call does.
+    (The concrete sketches — 10 hashes at scaled 1 vs 60 hashes at scaled 2 — are replayed from corpus/C16 on every run.) -/
+example : compareSerialAvgAni 2 (fun i j => .ok (some (if i < j then 4 else 8))) (fun x y => (x + y) / 2) 0 1 =
+    .ok [[1, 6], [6, 1]] := by decide
+
+example : compareSerialAvgAni 2 (fun i j => .ok (if i < j then some 4 else none)) (fun x y => (x + y) / 2) 0 1 =
+    .ok [[1, 0], [0, 1]] := by decide
+
+example : compareSerialAvgAni 2 (fun _ _ => (.error "ValueError" : Except String (Option Nat))) (fun x y => (x + y) / 2) 0 1 =
     .error "ValueError" := by decide
 
 example : chunkSize 7 3 = 3 ∧ chunks 3 (List.range 7) = [[0, 1, 2], [3, 4, 5], [6]] ∧ chunkSize 2 16 = 1 := by decide
